@@ -690,7 +690,7 @@ def _work_parsers(item):
 def run_bounded(rep: Report, tier: str) -> None:
     quick = tier == "quick"
     rng = random.Random(seed() * 32452843 + 13)
-    dl = deadline(tier, 80, 25 * 60)
+    dl = deadline(tier, 240, 25 * 60)
     L = 3 if quick else 4
     mixed = 150 if quick else 1500
     rep.rule = (
